@@ -1,62 +1,530 @@
 (* Builder — invariants of the cook micro-op sequences at every crash point. *)
-From Coq Require Import List Arith Bool Lia.
+From Coq Require Import List NArith Arith Bool Lia.
 Require Import BobV.Builder.Model.
 Import ListNotations.
 
 Lemma list_eqb_eq a b : list_eqb a b = true <-> a = b.
 Proof.
   revert b; induction a as [|x a IH]; intros [|y b]; simpl; split; intro H; try congruence; try reflexivity.
-  - apply andb_true_iff in H as [H1 H2]. apply Nat.eqb_eq in H1. apply IH in H2. congruence.
-  - inversion H; subst. rewrite Nat.eqb_refl. simpl. now apply IH.
+  - apply andb_true_iff in H as [H1 H2]. apply N.eqb_eq in H1. apply IH in H2. congruence.
+  - inversion H; subst. rewrite N.eqb_refl. simpl. now apply IH.
 Qed.
 
 Lemma list_eqb_refl a : list_eqb a a = true.
 Proof. now apply list_eqb_eq. Qed.
 
+Lemma opt_nat_eqb_eq a d : opt_eqb N.eqb a (Some d) = true <-> a = Some d.
+Proof.
+  destruct a as [x|]; simpl; split; intro H; try discriminate.
+  - apply N.eqb_eq in H. now subst.
+  - inversion H. apply N.eqb_refl.
+Qed.
+
+Lemma opt_list_eqb_eq a i : opt_eqb list_eqb a (Some i) = true <-> a = Some i.
+Proof.
+  destruct a as [x|]; simpl; split; intro H; try discriminate.
+  - apply list_eqb_eq in H. now subst.
+  - inversion H. apply list_eqb_refl.
+Qed.
+
 Section Hash.
   Variable hash : content -> Hsh.
+
+  Notation apply := (apply hash).
+  Notation exec := (exec hash).
+
+  Lemma exec_app a b s : exec (a ++ b) s = exec b (exec a s).
+  Proof. unfold Model.exec. apply fold_left_app. Qed.
+
+  Lemma crash_traces_app a : forall b t,
+    In t (crash_traces (a ++ b)) ->
+    In t (crash_traces a) \/ exists t', t = a ++ t' /\ In t' (crash_traces b).
+  Proof.
+    induction a as [|o a IH]; intros b t H.
+    - right. exists t. auto.
+    - cbn [app crash_traces] in H. destruct H as [<-|H]; [left; cbn; auto|].
+      apply in_app_or in H. destruct H as [H|H].
+      + left. cbn [crash_traces]. right. apply in_or_app. left. exact H.
+      + apply in_map_iff in H. destruct H as (t0 & <- & H0).
+        destruct (IH b t0 H0) as [H1|(t' & -> & H1)].
+        * left. cbn [crash_traces]. right. apply in_or_app. right. now apply in_map.
+        * right. exists t'. auto.
+  Qed.
+
+  Lemma crash_traces_full ops : In ops (crash_traces ops).
+  Proof.
+    induction ops as [|o r IH]; cbn [crash_traces]; [now left|].
+    right. apply in_or_app. right. now apply in_map.
+  Qed.
 
   (* ---- invariant of build and package workspaces *)
   Definition InvB (s : slot) : Prop :=
     (exists_ s = false -> cont s = Empty) /\
     cont s <> Garbage /\
-    (forall d x, cont s = Out d x -> dirst s = Some d) /\
-    (forall d, cont s = Partial d -> dirst s = Some d) /\
-    (forall i, inputs s = Some i -> exists d, dirst s = Some d /\ cont s = Out d i).
+    (forall d x, cont s = Out d x -> dirst s = Some d \/ dirst s = None) /\
+    (forall d, cont s = Partial d -> dirst s = Some d \/ dirst s = None) /\
+    (forall i, inputs s = Some i ->
+       exists d, dirst s = Some d /\ cont s = Out d i /\ result s = Some (RHash (hash (Out d i)))).
 
   Lemma InvB_empty : InvB empty_slot.
   Proof. unfold InvB, empty_slot; simpl. repeat split; try congruence; intros; discriminate. Qed.
 
-  Ltac break :=
-    repeat match goal with
-           | |- context [if ?b then _ else _] => destruct b eqn:?
-           | H : context [if ?b then _ else _] |- _ => destruct b eqn:?
-           | |- context [match ?x with _ => _ end] => destruct x eqn:?
-           end.
+  (* a state in which the step may run: directory exists, recorded digest is d *)
+  Definition Ready (d : D) (s : slot) : Prop := InvB s /\ exists_ s = true /\ dirst s = Some d.
 
-  Ltac eqs :=
-    repeat match goal with
-           | H : Nat.eqb _ _ = true |- _ => apply Nat.eqb_eq in H; subst
-           | H : Nat.eqb _ _ = false |- _ => apply Nat.eqb_neq in H
-           | H : list_eqb _ _ = true |- _ => apply list_eqb_eq in H; subst
-           | H : Some _ = Some _ |- _ => inversion H; subst; clear H
-           | H : Out _ _ = Out _ _ |- _ => inversion H; subst; clear H
-           | H : Partial _ = Partial _ |- _ => inversion H; subst; clear H
-           end.
-
-  (* one generic step lemma per micro-op that the cook functions emit under InvB *)
-  Lemma InvB_mkdir s : InvB s -> exists_ s = false -> InvB (apply hash MMkdir s).
+  Lemma Ready_cont d s : Ready d s ->
+    cont s = Empty \/ (exists x, cont s = Out d x) \/ cont s = Partial d.
   Proof.
-    intros (H1 & H2 & H3 & H4 & H5) E. unfold InvB; simpl. repeat split; auto. intros; discriminate.
+    intros ((_ & G & O & P & _) & _ & Hd).
+    destruct (cont s) as [|d' x|d'|] eqn:E; auto.
+    - right. left. exists x. destruct (O d' x eq_refl) as [H|H]; congruence.
+    - right. right. destruct (P d' eq_refl) as [H|H]; congruence.
+    - congruence.
   Qed.
 
-  Lemma InvB_prune s : InvB s -> InvB (apply hash MDelInputs (apply hash MPrune s)).
+  (* invalidating operations keep the invariant *)
+  Lemma InvB_noinputs s :
+    (exists_ s = false -> cont s = Empty) -> cont s <> Garbage ->
+    (forall d x, cont s = Out d x -> dirst s = Some d \/ dirst s = None) ->
+    (forall d, cont s = Partial d -> dirst s = Some d \/ dirst s = None) ->
+    inputs s = None -> InvB s.
+  Proof. intros. unfold InvB. repeat split; auto. intros i Hi. congruence. Qed.
+
+  Lemma InvB_resetnone s : InvB s -> InvB (apply MResetNone s).
+  Proof. intros (A & B & _). apply InvB_noinputs; cbn; auto. Qed.
+
+  Lemma InvB_delinputs s : InvB s -> InvB (apply MDelInputs s).
+  Proof. intros (A & B & C & E & _). apply InvB_noinputs; cbn; auto. Qed.
+
+  Lemma InvB_settime s : InvB s -> inputs s = None -> InvB (apply MSetTime s).
+  Proof. intros (A & B & C & E & _) Hi. apply InvB_noinputs; cbn; auto. Qed.
+
+  Lemma InvB_setvid s d : InvB s -> InvB (apply (MSetVid d) s).
+  Proof. intros I; exact I. Qed.
+
+  Lemma InvB_setresult s : InvB s -> InvB (apply MSetResult s).
   Proof.
-    intros (H1 & H2 & H3 & H4 & H5). unfold InvB; simpl. repeat split; auto; try congruence; intros; discriminate.
+    intros (A & B & C & E & F). unfold InvB; cbn. repeat split; auto.
+    intros i Hi. destruct (F i Hi) as (d & H1 & H2 & H3). exists d. rewrite H2. auto.
   Qed.
 
-  Lemma InvB_reset s d : InvB s -> cont s = Empty -> InvB (apply hash (MReset d) s).
+  Lemma InvB_mkdir s : InvB s -> exists_ s = false -> InvB (apply MMkdir s).
   Proof.
-    intros (H1 & H2 & H3 & H4 & H5) E. unfold InvB; simpl. rewrite E. repeat split; auto; try congruence; intros; discriminate.
+    intros (A & B & C & E & F) Hx. unfold InvB; cbn. repeat split; auto; intros; discriminate.
+  Qed.
+
+  Lemma InvB_prune s : InvB s -> inputs s = None -> InvB (apply MPrune s).
+  Proof. intros (A & _) Hi. apply InvB_noinputs; cbn; auto; intros; discriminate. Qed.
+
+  Lemma InvB_reset_empty s d : InvB s -> cont s = Empty -> InvB (apply (MReset d) s).
+  Proof. intros (A & _) Hc. apply InvB_noinputs; cbn; auto; rewrite Hc; intros; discriminate. Qed.
+
+  Ltac crash_cases H :=
+    cbn [crash_traces app map] in H;
+    repeat match type of H with
+           | _ \/ _ => destruct H as [H|H]
+           | False => contradiction
+           | In _ _ => cbn [In app map] in H
+           end; subst.
+
+  (* ---- build step: prepare phase *)
+  Lemma build_prepare_ok d s : InvB s ->
+    (forall t, In t (crash_traces (build_prepare d s)) -> InvB (exec t s)) /\
+    Ready d (exec (build_prepare d s) s).
+  Proof.
+    intros I. unfold build_prepare.
+    destruct (exists_ s) eqn:Ex.
+    - cbn [negb orb app].
+      destruct (opt_eqb N.eqb (dirst s) (Some d)) eqn:Ed; cbn [negb app].
+      + split; [intros t Ht; crash_cases Ht; exact I|].
+        apply opt_nat_eqb_eq in Ed. repeat split; auto; apply I.
+      + assert (I1 := InvB_resetnone s I).
+        assert (I2 : InvB (apply MPrune (apply MResetNone s))) by (apply InvB_prune; auto).
+        assert (I3 : InvB (apply (MReset d) (apply MPrune (apply MResetNone s)))) by (apply InvB_reset_empty; auto).
+        split; [intros t Ht; crash_cases Ht; cbn; auto|].
+        split; [exact I3|]. cbn. auto.
+    - cbn [negb orb app].
+      assert (Hc : cont s = Empty) by (apply I; exact Ex).
+      assert (I1 := InvB_mkdir s I Ex).
+      assert (I2 : InvB (apply (MReset d) (apply MMkdir s))) by (apply InvB_reset_empty; auto).
+      split; [intros t Ht; crash_cases Ht; cbn; auto|].
+      split; [exact I2|]. cbn. auto.
+  Qed.
+
+  (* ---- the run sequence shared by build and package steps *)
+  Definition run_seq (d : D) (ins : list Hsh) (cl : bool) : list mop :=
+    [MDelInputs; MSetTime; MRun d ins cl; MSetResult; MSetVid d; MSetInputs ins].
+
+  Lemma run_on_ready d ins (cl : bool) s : Ready d s ->
+    run_on d ins (if cl then Empty else cont s) = Out d ins /\
+    crash_on d (if cl then Empty else cont s) = Partial d.
+  Proof.
+    intros R. destruct cl; [cbn; auto|].
+    destruct (Ready_cont d s R) as [H|[[x H]|H]]; rewrite H; cbn; rewrite ?N.eqb_refl; auto.
+  Qed.
+
+  Lemma run_seq_ok d ins (cl : bool) s : Ready d s ->
+    (forall t, In t (crash_traces (run_seq d ins cl)) -> InvB (exec t s)) /\
+    let s' := exec (run_seq d ins cl) s in
+    Ready d s' /\ cont s' = Out d ins /\ inputs s' = Some ins /\
+    result s' = Some (RHash (hash (Out d ins))).
+  Proof.
+    intros R. pose proof R as ((A & B & C & E & F) & Hx & Hd).
+    destruct (run_on_ready d ins cl s R) as [Hr Hk].
+    assert (I0 : InvB (apply MDelInputs s)) by (apply InvB_delinputs; apply R).
+    assert (I1 : InvB (apply MSetTime (apply MDelInputs s))) by (apply InvB_settime; auto).
+    assert (Irun : InvB (apply (MRun d ins cl) (apply MSetTime (apply MDelInputs s)))).
+    { apply InvB_noinputs; cbn; rewrite ?Hr; auto; try congruence;
+        try (intros; discriminate); try (intros d0 x Hq; inversion Hq; subst; auto). }
+    assert (Icr : InvB (apply (MRunCrash d cl) (apply MSetTime (apply MDelInputs s)))).
+    { apply InvB_noinputs; cbn; rewrite ?Hk; auto; try congruence;
+        try (intros; discriminate); try (intros d0 Hq; inversion Hq; subst; auto). }
+    assert (Isr := InvB_setresult _ Irun).
+    assert (Isv := InvB_setvid _ d Isr).
+    assert (Ifin : InvB (exec (run_seq d ins cl) s)).
+    { unfold InvB; cbn. rewrite Hr. repeat split; auto; try congruence;
+        try (intros; discriminate); try (intros d0 x Hq; inversion Hq; subst; auto).
+      intros i Hi. inversion Hi; subst. exists d. auto. }
+    split.
+    - intros t Ht. unfold run_seq in Ht. crash_cases Ht; cbn [Model.exec fold_left];
+        first [ exact (proj1 R) | exact I0 | exact I1 | exact Icr | exact Irun | exact Isr | exact Isv | exact Ifin ].
+    - cbn zeta. split; [split; [exact Ifin|cbn; auto]|]. cbn. rewrite Hr. auto.
+  Qed.
+
+  (* ---- build step *)
+  Lemma build_body_ok c d ins s : Ready d s ->
+    (forall t, In t (crash_traces (build_body c d ins s)) -> InvB (exec t s)) /\
+    let s' := exec (build_body c d ins s) s in
+    Ready d s' /\ cont s' = Out d ins /\ inputs s' = Some ins /\
+    result s' = Some (RHash (hash (Out d ins))).
+  Proof.
+    intros R. unfold build_body.
+    destruct (negb (force c) && opt_eqb list_eqb (inputs s) (Some ins)) eqn:Sk.
+    - apply andb_true_iff in Sk as [_ Sk]. apply opt_list_eqb_eq in Sk.
+      pose proof R as ((A & B & C & E & F) & Hx & Hd).
+      destruct (F ins Sk) as (d' & H1 & H2 & H3).
+      assert (d' = d) by congruence. subst d'.
+      destruct (clean_build c).
+      + split; [intros t Ht; crash_cases Ht; apply R|]. cbn. auto.
+      + assert (Isr := InvB_setresult _ (proj1 R)).
+        split; [intros t Ht; crash_cases Ht; cbn; auto; apply R|].
+        split; [split; [exact Isr | cbn; auto] | cbn; rewrite H2; auto].
+    - apply run_seq_ok. exact R.
+  Qed.
+
+  Lemma cook_build_ok c d ins s : InvB s ->
+    (forall t, In t (crash_traces (cook_build hash c d ins s)) -> InvB (exec t s)) /\
+    let s' := exec (cook_build hash c d ins s) s in
+    Ready d s' /\ cont s' = Out d ins /\ inputs s' = Some ins /\
+    result s' = Some (RHash (hash (Out d ins))).
+  Proof.
+    intros I. unfold cook_build. cbn zeta.
+    destruct (build_prepare_ok d s I) as [P1 P2].
+    destruct (build_body_ok c d ins _ P2) as [B1 B2].
+    split.
+    - intros t Ht. apply crash_traces_app in Ht. destruct Ht as [Ht|(t' & -> & Ht)].
+      + now apply P1.
+      + rewrite exec_app. now apply B1.
+    - rewrite exec_app. exact B2.
+  Qed.
+
+  (* an immediately repeated build does not run the script *)
+  Lemma cook_build_noop c d ins s :
+    force c = false -> Ready d s -> inputs s = Some ins ->
+    runs (cook_build hash c d ins s) = false.
+  Proof.
+    intros Hf (I & Hx & Hd) Hi. unfold cook_build, build_prepare. rewrite Hx. cbn [negb orb app].
+    assert (E : opt_eqb N.eqb (dirst s) (Some d) = true) by (apply opt_nat_eqb_eq; exact Hd).
+    rewrite E. cbn [negb app Model.exec fold_left]. unfold build_body. rewrite Hf.
+    assert (E2 : opt_eqb list_eqb (inputs s) (Some ins) = true) by (apply opt_list_eqb_eq; exact Hi).
+    rewrite E2. cbn. destruct (clean_build c); reflexivity.
+  Qed.
+
+  (* ---- package step *)
+  Lemma package_prepare_ok d s : InvB s ->
+    (forall t, In t (crash_traces (package_prepare d s)) -> InvB (exec t s)) /\
+    Ready d (exec (package_prepare d s) s).
+  Proof.
+    intros I. unfold package_prepare.
+    destruct (exists_ s) eqn:Ex.
+    - cbn [negb orb andb app].
+      destruct (opt_eqb N.eqb (dirst s) (Some d)) eqn:Ed; cbn [negb app].
+      + split; [intros t Ht; crash_cases Ht; exact I|].
+        apply opt_nat_eqb_eq in Ed. repeat split; auto; apply I.
+      + assert (I1 := InvB_resetnone s I).
+        assert (I2 : InvB (apply MPrune (apply MResetNone s))) by (apply InvB_prune; auto).
+        assert (I3 : InvB (apply (MReset d) (apply MPrune (apply MResetNone s)))) by (apply InvB_reset_empty; auto).
+        split; [intros t Ht; crash_cases Ht; cbn; auto|].
+        split; [exact I3|]. cbn. auto.
+    - cbn [negb orb andb app].
+      assert (Hc : cont s = Empty) by (apply I; exact Ex).
+      assert (I1 : InvB (apply (MReset d) s)) by (apply InvB_reset_empty; auto).
+      assert (I2 : InvB (apply MMkdir (apply (MReset d) s))) by (apply InvB_mkdir; auto).
+      split; [intros t Ht; crash_cases Ht; cbn; auto|].
+      split; [exact I2|]. cbn. auto.
+  Qed.
+
+  Lemma package_body_ok c d ins s : Ready d s ->
+    (forall t, In t (crash_traces (package_body c d ins s)) -> InvB (exec t s)) /\
+    let s' := exec (package_body c d ins s) s in
+    Ready d s' /\ cont s' = Out d ins /\ inputs s' = Some ins /\
+    result s' = Some (RHash (hash (Out d ins))).
+  Proof.
+    intros R. unfold package_body.
+    destruct (negb (force c) && opt_eqb list_eqb (inputs s) (Some ins)) eqn:Sk.
+    - apply andb_true_iff in Sk as [_ Sk]. apply opt_list_eqb_eq in Sk.
+      pose proof R as ((A & B & C & E & F) & Hx & Hd).
+      destruct (F ins Sk) as (d' & H1 & H2 & H3).
+      assert (d' = d) by congruence. subst d'.
+      split; [intros t Ht; crash_cases Ht; apply R|]. cbn. auto.
+    - apply (run_seq_ok d ins true s R).
+  Qed.
+
+  Lemma cook_package_ok c d ins s : InvB s ->
+    (forall t, In t (crash_traces (cook_package hash c d ins s)) -> InvB (exec t s)) /\
+    let s' := exec (cook_package hash c d ins s) s in
+    Ready d s' /\ cont s' = Out d ins /\ inputs s' = Some ins /\
+    result s' = Some (RHash (hash (Out d ins))).
+  Proof.
+    intros I. unfold cook_package. cbn zeta.
+    destruct (package_prepare_ok d s I) as [P1 P2].
+    destruct (package_body_ok c d ins _ P2) as [B1 B2].
+    split.
+    - intros t Ht. apply crash_traces_app in Ht. destruct Ht as [Ht|(t' & -> & Ht)].
+      + now apply P1.
+      + rewrite exec_app. now apply B1.
+    - rewrite exec_app. exact B2.
+  Qed.
+
+  Lemma cook_package_noop c d ins s :
+    force c = false -> Ready d s -> inputs s = Some ins ->
+    runs (cook_package hash c d ins s) = false.
+  Proof.
+    intros Hf (I & Hx & Hd) Hi. unfold cook_package, package_prepare. rewrite Hx.
+    assert (E : opt_eqb N.eqb (dirst s) (Some d) = true) by (apply opt_nat_eqb_eq; exact Hd).
+    rewrite E. cbn [negb orb andb app Model.exec fold_left]. unfold package_body. rewrite Hf.
+    assert (E2 : opt_eqb list_eqb (inputs s) (Some ins) = true) by (apply opt_list_eqb_eq; exact Hi).
+    rewrite E2. reflexivity.
+  Qed.
+
+  (* ---- checkout step *)
+  Definition InvC (s : slot) : Prop :=
+    forall d i h, dirst s = Some d -> inputs s = Some i -> result s = Some (RHash h) ->
+                  h = hash (cont s) -> cont s = Out d i.
+
+  Lemma InvC_empty : InvC empty_slot.
+  Proof. unfold InvC, empty_slot; cbn. intros; discriminate. Qed.
+
+  Lemma InvC_nodir s : dirst s = None -> InvC s.
+  Proof. unfold InvC. intros H d i h Hd. congruence. Qed.
+
+  Lemma InvC_nores s : (forall h, result s <> Some (RHash h)) -> InvC s.
+  Proof. unfold InvC. intros H d i h _ _ Hr. exfalso. eapply H; eauto. Qed.
+
+  Definition co_run_seq (pre : list mop) (d : D) (ins : list Hsh) : list mop :=
+    [MClrDir] ++ pre ++ [MRun d ins true; MSetDir d; MSetInputs ins; MSetVid d; MSetResult].
+
+  Lemma co_run_seq_ok d ins s pre : InvC s ->
+    (pre = [MSetTime] \/ (pre = [] /\ result s = None)) ->
+    (forall t, In t (crash_traces (co_run_seq pre d ins)) -> InvC (exec t s)) /\
+    let s' := exec (co_run_seq pre d ins) s in
+    InvC s' /\ cont s' = Out d ins /\ dirst s' = Some d /\ inputs s' = Some ins /\
+    result s' = Some (RHash (hash (Out d ins))) /\ exists_ s' = exists_ s.
+  Proof.
+    intros I Hpre.
+    assert (Ifin : InvC (exec (co_run_seq pre d ins) s)).
+    { destruct Hpre as [->|[-> _]]; unfold InvC; cbn; intros d0 i0 h0 H1 H2 _ _; congruence. }
+    split.
+    - intros t Ht. destruct Hpre as [->|[-> Hn]]; unfold co_run_seq in Ht; crash_cases Ht;
+        cbn [Model.exec fold_left];
+        first [ exact I | exact Ifin
+              | apply InvC_nodir; cbn; reflexivity
+              | apply InvC_nores; cbn; intros h; try rewrite Hn; discriminate ].
+    - cbn zeta. split; [exact Ifin|]. destruct Hpre as [->|[-> _]]; cbn; auto 10.
+  Qed.
+
+  Lemma cook_checkout_ok c det d ins s : InvC s ->
+    (forall t, In t (crash_traces (cook_checkout hash c det d ins s)) -> InvC (exec t s)) /\
+    let s' := exec (cook_checkout hash c det d ins s) s in
+    InvC s' /\ cont s' = Out d ins /\ result s' = Some (RHash (hash (Out d ins))) /\
+    dirst s' = Some d /\ inputs s' = Some ins /\ exists_ s' = true.
+  Proof.
+    intros I. unfold cook_checkout. cbn zeta.
+    set (p := if exists_ s then [] else [MMkdir; MReset 0%N; MClrDir]).
+    set (s1 := exec p s).
+    assert (Hp : (forall t, In t (crash_traces p) -> InvC (exec t s)) /\ InvC s1 /\ exists_ s1 = true /\
+                 (exists_ s = false -> result s1 = None)).
+    { subst p s1. destruct (exists_ s) eqn:Ex.
+      - split; [intros t Ht; crash_cases Ht; exact I|]. cbn. repeat split; auto. discriminate.
+      - split.
+        + intros t Ht. crash_cases Ht; cbn [Model.exec fold_left]; try exact I;
+            try (apply InvC_nodir; reflexivity);
+            try (apply InvC_nores; cbn; intros; discriminate).
+        + cbn. repeat split; auto. apply InvC_nodir. reflexivity. }
+    destruct Hp as (P1 & I1 & Hx1 & Hr1).
+    unfold checkout_body.
+    match goal with |- context [if ?b then _ else _] => destruct b eqn:Dec end.
+    - (* the script runs *)
+      assert (Hpre : (match result s1 with Some _ => [MSetTime] | None => [] end) = [MSetTime] \/
+                     ((match result s1 with Some _ => [MSetTime] | None => [] end) = [] /\ result s1 = None)).
+      { destruct (result s1); auto. }
+      destruct (co_run_seq_ok d ins s1 _ I1 Hpre) as [B1 B2]. unfold co_run_seq in B1, B2.
+      split.
+      + intros t Ht. apply crash_traces_app in Ht. destruct Ht as [Ht|(t' & -> & Ht)].
+        * now apply P1.
+        * rewrite exec_app. now apply B1.
+      + rewrite exec_app. cbn zeta in B2. destruct B2 as (A1 & A2 & A3 & A4 & A5 & A6).
+        repeat split; auto. fold s1. congruence.
+    - (* skipped: only the result hash is refreshed *)
+      repeat (apply orb_false_iff in Dec; destruct Dec as [Dec ?]).
+      match goal with Hq : negb (opt_eqb N.eqb _ _) = false |- _ => apply negb_false_iff, opt_nat_eqb_eq in Hq; rename Hq into Hd end.
+      match goal with Hq : negb (opt_eqb list_eqb _ _) = false |- _ => apply negb_false_iff, opt_list_eqb_eq in Hq; rename Hq into Hi end.
+      assert (Hr : result s1 = Some (RHash (hash (cont s1)))).
+      { match goal with Hq : match result s1 with _ => _ end = false |- _ =>
+          destruct (result s1) as [[h|]|]; try discriminate;
+          apply negb_false_iff, N.eqb_eq in Hq; now subst end. }
+      assert (Hc : cont s1 = Out d ins) by (eapply I1; eauto).
+      split.
+      + intros t Ht. apply crash_traces_app in Ht. destruct Ht as [Ht|(t' & -> & Ht)].
+        * now apply P1.
+        * rewrite exec_app. fold s1. crash_cases Ht; cbn [Model.exec fold_left]; try exact I1.
+          unfold InvC in *; cbn. intros. eapply I1; eauto.
+      + rewrite exec_app. fold s1. cbn. rewrite Hc. repeat split; auto.
+        unfold InvC; cbn. intros. rewrite Hc in *. congruence.
+  Qed.
+
+  Lemma cook_checkout_noop c d ins s :
+    force c = false -> exists_ s = true -> dirst s = Some d -> inputs s = Some ins ->
+    result s = Some (RHash (hash (cont s))) ->
+    runs (cook_checkout hash c true d ins s) = false.
+  Proof.
+    intros Hf Hx Hd Hi Hr. unfold cook_checkout. rewrite Hx. cbn [app Model.exec fold_left].
+    unfold checkout_body. rewrite Hx, Hf, Hd, Hi, Hr. cbn [negb orb opt_eqb].
+    rewrite ?N.eqb_refl, ?list_eqb_refl. cbn. rewrite ?N.eqb_refl. reflexivity.
+  Qed.
+
+  (* ------------------------------------------------------------------ project level *)
+  Variable is_src : N -> bool.      (* which workspace directories are source (checkout) workspaces *)
+
+  Definition InvP (p : N) (s : slot) : Prop := if is_src p then InvC s else InvB s.
+  Definition AllInv (w : wstate) : Prop := forall p, InvP p (w p).
+
+  Definition kind_ok (sd : stepdef) : Prop :=
+    match sd_kind sd with KCheckout _ => is_src (sd_path sd) = true | _ => is_src (sd_path sd) = false end.
+
+  Lemma AllInv_upd w p s : AllInv w -> InvP p s -> AllInv (upd w p s).
+  Proof.
+    intros A I q. unfold upd. destruct (N.eqb q p) eqn:E; [apply N.eqb_eq in E; now subst|apply A].
+  Qed.
+
+  (* one step: every crash image keeps every workspace's invariant; afterwards the
+     workspace holds the run's output for the current inputs *)
+  Lemma cook_step_ok c w sd : AllInv w -> kind_ok sd ->
+    (forall t, In t (crash_traces (cook_step hash c w sd)) ->
+               AllInv (upd w (sd_path sd) (exec t (w (sd_path sd))))) /\
+    let w' := build_step hash c w sd in
+    AllInv w' /\
+    cont (w' (sd_path sd)) = Out (sd_d sd) (map (res_hash w) (sd_deps sd)) /\
+    result (w' (sd_path sd)) = Some (RHash (hash (Out (sd_d sd) (map (res_hash w) (sd_deps sd))))).
+  Proof.
+    intros A K. pose proof (A (sd_path sd)) as Ip. unfold InvP, kind_ok in *.
+    unfold build_step, cook_step. cbn zeta.
+    destruct (sd_kind sd) as [det| |]; rewrite K in Ip.
+    - destruct (cook_checkout_ok c det (sd_d sd) (map (res_hash w) (sd_deps sd)) _ Ip) as [C1 C2].
+      cbn zeta in C2. destruct C2 as (C2 & C3 & C4 & _).
+      split; [intros t Ht; apply AllInv_upd; auto; unfold InvP; rewrite K; auto|].
+      split; [apply AllInv_upd; auto; unfold InvP; rewrite K; auto|].
+      unfold upd. rewrite N.eqb_refl. auto.
+    - destruct (cook_build_ok c (sd_d sd) (map (res_hash w) (sd_deps sd)) _ Ip) as [C1 C2].
+      cbn zeta in C2. destruct C2 as ((C2 & _) & C3 & _ & C4).
+      split; [intros t Ht; apply AllInv_upd; auto; unfold InvP; rewrite K; auto|].
+      split; [apply AllInv_upd; auto; unfold InvP; rewrite K; auto|].
+      unfold upd. rewrite N.eqb_refl. auto.
+    - destruct (cook_package_ok c (sd_d sd) (map (res_hash w) (sd_deps sd)) _ Ip) as [C1 C2].
+      cbn zeta in C2. destruct C2 as ((C2 & _) & C3 & _ & C4).
+      split; [intros t Ht; apply AllInv_upd; auto; unfold InvP; rewrite K; auto|].
+      split; [apply AllInv_upd; auto; unfold InvP; rewrite K; auto|].
+      unfold upd. rewrite N.eqb_refl. auto.
+  Qed.
+
+  (* well-formed project: distinct workspaces, inputs are produced earlier *)
+  Fixpoint wf_from (seen : list N) (P : project) : Prop :=
+    match P with
+    | [] => True
+    | sd :: r => ~ In (sd_path sd) seen /\ (forall q, In q (sd_deps sd) -> In q seen) /\ kind_ok sd /\
+                 wf_from (sd_path sd :: seen) r
+    end.
+  Definition wf (P : project) : Prop := wf_from [] P.
+
+  (* [Good seen w cl]: the workspaces built so far hold the clean content and an accurate result hash *)
+  Definition Good (seen : list N) (w : wstate) (cl : N -> content) : Prop :=
+    forall p, In p seen -> cont (w p) = cl p /\ result (w p) = Some (RHash (hash (cl p))).
+
+  Lemma build_from_good c : forall P seen w cl,
+    AllInv w -> Good seen w cl -> wf_from seen P ->
+    let w' := fold_left (build_step hash c) P w in
+    let cl' := fold_left (clean_step hash) P cl in
+    AllInv w' /\ Good (rev (map sd_path P) ++ seen) w' cl'.
+  Proof.
+    induction P as [|sd P IH]; intros seen w cl A G W; cbn zeta.
+    - cbn. auto.
+    - cbn [wf_from] in W. destruct W as (Wn & Wd & Wk & Wr).
+      cbn [fold_left].
+      destruct (cook_step_ok c w sd A Wk) as [_ S]. cbn zeta in S. destruct S as (A' & Sc & Sr).
+      assert (Eins : map (res_hash w) (sd_deps sd) = map (fun p => hash (cl p)) (sd_deps sd)).
+      { apply map_ext_in. intros q Hq. unfold res_hash. destruct (G q (Wd q Hq)) as [_ ->]. reflexivity. }
+      assert (G' : Good (sd_path sd :: seen) (build_step hash c w sd) (clean_step hash cl sd)).
+      { intros q [<-|Hq].
+        - rewrite Sc, Sr, Eins. unfold clean_step, upd. rewrite N.eqb_refl. auto.
+        - assert (N : N.eqb q (sd_path sd) = false) by (apply N.eqb_neq; intros ->; auto).
+          unfold build_step, clean_step, upd. rewrite N. apply G. exact Hq. }
+      specialize (IH (sd_path sd :: seen) _ _ A' G' Wr). cbn zeta in IH.
+      destruct IH as [IA IG]. split; [exact IA|].
+      cbn [map rev]. rewrite <- app_assoc. exact IG.
+  Qed.
+
+  Lemma Good_nil w cl : Good [] w cl.
+  Proof. intros p []. Qed.
+
+  Lemma build_correct_proof c P w :
+    AllInv w -> wf P ->
+    AllInv (build hash c P w) /\
+    forall sd, In sd P ->
+      cont (build hash c P w (sd_path sd)) = clean hash P (sd_path sd) /\
+      result (build hash c P w (sd_path sd)) = Some (RHash (hash (clean hash P (sd_path sd)))).
+  Proof.
+    intros A W. destruct (build_from_good c P [] w (fun _ => Empty) A (Good_nil _ _) W) as [A' G].
+    cbn zeta in *. split; [exact A'|]. intros sd Hsd. apply G. rewrite app_nil_r.
+    apply in_rev. rewrite rev_involutive. now apply in_map.
+  Qed.
+
+  (* any history of projects, then the final one *)
+  Lemma history_correct_proof c (Ps : list project) P w :
+    AllInv w -> Forall wf Ps -> wf P ->
+    let w' := build hash c P (fold_left (fun st Q => build hash c Q st) Ps w) in
+    forall sd, In sd P -> cont (w' (sd_path sd)) = clean hash P (sd_path sd).
+  Proof.
+    intros A F W. cbn zeta.
+    assert (A' : AllInv (fold_left (fun st Q => build hash c Q st) Ps w)).
+    { revert w A. induction F as [|Q Ps Hq F IH]; intros w A; cbn [fold_left]; [exact A|].
+      apply IH. apply (build_correct_proof c Q w A Hq). }
+    intros sd Hsd. apply (build_correct_proof c P _ A' W). exact Hsd.
+  Qed.
+
+  (* crash anywhere inside a build: the image still satisfies every invariant *)
+  Lemma crash_image_inv_proof c P1 sd w t :
+    AllInv w -> wf_from [] (P1 ++ [sd]) ->
+    In t (crash_traces (cook_step hash c (build hash c P1 w) sd)) ->
+    AllInv (upd (build hash c P1 w) (sd_path sd) (exec t (build hash c P1 w (sd_path sd)))).
+  Proof.
+    intros A W Ht.
+    assert (A1 : AllInv (build hash c P1 w) /\ kind_ok sd).
+    { clear Ht. unfold build. revert w A W. generalize (@nil N).
+      induction P1 as [|x P1 IH]; intros seen w A W; cbn [app wf_from fold_left] in *.
+      - split; [exact A|]. apply W.
+      - destruct W as (W1 & W2 & W3 & W4).
+        destruct (cook_step_ok c w x A W3) as [_ (Ax & _)].
+        exact (IH _ _ Ax W4). }
+    destruct A1 as [A1 K]. apply (cook_step_ok c _ sd A1 K). exact Ht.
   Qed.
 End Hash.
